@@ -42,6 +42,13 @@ func nestedSpecs(r *Run, detach bool, oracles []string) []Spec {
 			// itself stored inline in the parent, or not)
 			Spec{Name: "nested-ext-arr", Kind: "nested", T: 256, Keys: 2, Classes: []string{"t", "limA+", "A"}, Oracles: oracles, Extra: ex(0, 2, 2, 2, 2)},
 			Spec{Name: "nested-ext-map", Kind: "nested", T: 256, Keys: 2, Classes: []string{"t", "limM+", "M"}, Oracles: oracles, Extra: ex(1, 2, 2, 2, 2)},
+			// children grown / shrunk to land EXACTLY on, and one byte over, the limit their parent grants them
+			// (dynamic classes fit / fit+), all four parent/child kind combinations
+			Spec{Name: "nested-fit-arr-arr", Kind: "nested", T: 256, Keys: 2, Classes: []string{"t", "fit", "fit+", "A"}, Oracles: oracles, Extra: ex(0, 1, 2, 2, 2)},
+			Spec{Name: "nested-fit-arr-map", Kind: "nested", T: 256, Keys: 2, Classes: []string{"t", "fit", "fit+", "M"}, Oracles: oracles, Extra: ex(0, 1, 2, 2, 2)},
+			Spec{Name: "nested-fit-map-arr", Kind: "nested", T: 256, Keys: 1, Classes: []string{"t", "fit", "fit+", "A"}, Oracles: oracles, Extra: ex(1, 1, 2, 2, 2)},
+			Spec{Name: "nested-fit-map-map", Kind: "nested", T: 256, Keys: 1, Classes: []string{"t", "fit", "fit+", "M"}, Oracles: oracles, Extra: ex(1, 1, 2, 2, 2)},
+			Spec{Name: "nested-fit-wrapped", Kind: "nested", T: 256, Keys: 1, Classes: []string{"t", "fit", "fit+", "s:A", "s:M"}, Oracles: oracles, Extra: ex(0, 1, 2, 2, 2)},
 			Spec{Name: "nested-two-handles", Kind: "nested", T: 256, Keys: 2, Classes: []string{"t", "A", "M"}, Oracles: oracles, Extra: exTwo(0, 2, 3, 2, 2)},
 			Spec{Name: "nested-two-handles-map", Kind: "nested", T: 256, Keys: 2, Classes: []string{"t", "A", "M"}, Oracles: oracles, Extra: exTwo(1, 2, 3, 2, 2)},
 			Spec{Name: "nested-parent-split", Kind: "nested", T: 256, Keys: 2, Classes: []string{"limA", "s30", "A"}, Oracles: oracles, Extra: ex2(0, 4, 3, 2, 2)},
